@@ -489,6 +489,9 @@ C ::= BOOLEAN
 B ::= BOOLEAN".to_string(), 22),
             (long.clone(), long.find("DEFAULT").unwrap() + 8),
             ("short".to_string(), 5),
+            // the context of an assignment begins behind the previous one: with the line break(s) that separate the two
+            ("\n\nB ::= § BOOLEAN\n  END\n".to_string(), 10),
+            ("\r\n  B ::= §".to_string(), 11),
             ("é §".to_string(), 3),
             (String::new(), 1),
         ];
@@ -503,8 +506,11 @@ B ::= BOOLEAN".to_string(), 22),
                 env.insert(params.get(2).cloned().unwrap_or("fallback_len".into()), Val::int(fallback as i128));
                 match ev.eval_fn_body(&f.block, &mut env) {
                     Ok(Val::Str(r)) => {
-                        // `trim()` may strip leading blanks of the fallback; a prefix up to leading whitespace
-                        if !text.trim_start().starts_with(r.trim_start()) {
+                        // leading blanks may be stripped, leading *line breaks* may not: the lines of the excerpt are numbered
+                        // from context_start_line, and a dropped line break shifts every label
+                        let lead = |t: &str| t.len() - t.trim_start().len();
+                        let dropped_breaks = lead(text) >= lead(&r) && text[..lead(text) - lead(&r)].contains('\n');
+                        if !text.trim_start().starts_with(r.trim_start()) || (!text.starts_with(r.as_str()) && dropped_breaks) {
                             ctx.violate("C17.same", "contextualize-excerpt-start", &f.file, f.line,
                                 &format!("until_next_unindented returns an excerpt that does not start at the start of the text it is given (text of {} bytes, error {} bytes in: excerpt starts with {:?}): contextualize() numbers the excerpt's lines from context_start_line, so every label — and the FAILED AT THIS LINE marker — is off by the number of dropped lines", text.len(), at, r.chars().take(30).collect::<String>()));
                             break;
